@@ -1,7 +1,7 @@
 (* C02 - constructors denote exactly the angle and vector they are given.  Pinned theorems only. *)
 From Coq Require Import ZArith List Bool Reals Lra.
 From Flocq Require Import Core BinarySingleNaN.
-Require Import GV.FloatBase GV.FloatLemmas GV.AngleM GV.AngleProofs GV.GeonumM GV.GeonumProofs GV.NewProofs GV.CtorProofs.
+Require Import GV.FloatBase GV.FloatLemmas GV.AngleM GV.AngleProofs GV.GeonumM GV.GeonumProofs GV.NewProofs GV.CtorProofs GV.ClosureProofs GV.SumUpper.
 Open Scope R_scope.
 
 (* k quarter turns written as Angle::new(k, 2.0): exactly blade k, remainder 0 *)
@@ -65,3 +65,23 @@ Theorem C02_new_value_pd : forall p d, fin p -> fin d -> R_ d <> 0 ->
     <= R_ eps10 + / 4503599627370496 + / 2251799813685248 * Rabs (R_ p * R_ PI / R_ d) + bpow radix2 (-70).
 Proof. exact new_value_pd. Qed.
 Print Assumptions C02_new_value_pd.
+
+(* a negative p/d (general path) yields a forward rotation of AT MOST ONE TURN: at most 4 blades, and exactly
+   4 only with a remainder below 2^-8 (the rounding of the lift at totals up to 2^42; 0 in exact arithmetic) *)
+Theorem C02_negative_at_most_one_turn : forall p d, fast_path p d = false ->
+  fin (total_angle p d) -> Rabs (R_ (total_angle p d)) <= bpow radix2 42 -> R_ (total_angle p d) < 0 ->
+  (0 <= blade (new p d) <= 4)%Z /\ (blade (new p d) = 4%Z -> R_ (rem (new p d)) <= / 256).
+Proof.
+intros p d Hf Ft Bt Ng. destruct (new_blade_upper p d Hf Ft Bt ltac:(lra)) as [U V].
+destruct (new_canon p d Ft Bt) as [_ B0]. split; [split; assumption|exact V].
+Qed.
+Print Assumptions C02_negative_at_most_one_turn.
+
+(* the lift of a negative total lands in [0, 2 pi + 2^-8] (4q = the double 2 pi) *)
+Theorem C02_lift_range : forall t, fin t -> Rabs (R_ t) <= bpow radix2 42 -> R_ t < 0 ->
+  fin (lift_total t) /\ 0 <= R_ (lift_total t) <= 4 * R_ Q + / 256.
+Proof.
+intros t Ft Bt Ng. destruct (lift_total_nonneg t Ft Bt) as [F P]. split; [exact F|]. split; [exact P|].
+now apply lift_total_upper.
+Qed.
+Print Assumptions C02_lift_range.
